@@ -239,6 +239,12 @@ class _ReStub:
     def sub(pattern, repl, string, count=0, flags=0):
         return _re.sub(pattern, repl, string, count=count, flags=flags)
 
+    IGNORECASE = I = _re.IGNORECASE
+    DOTALL = S = _re.DOTALL
+    MULTILINE = M = _re.MULTILINE
+    ASCII = A = _re.ASCII
+    VERBOSE = X = _re.VERBOSE
+
 
 _BINOPS = {
     ast.Add: operator.add, ast.Sub: operator.sub, ast.Mult: operator.mul,
@@ -346,6 +352,8 @@ _SAFE_METHODS = {
     bytearray: {'find', 'index', 'count', 'extend', 'append', 'pop', 'translate', 'decode', 'hex', 'startswith', 'endswith', 'rfind', 'replace', 'join',
                 'insert', 'reverse', 'clear', 'copy', 'strip', 'rstrip', 'lstrip', 'zfill', 'split', 'isdigit', '__getitem__', '__contains__'},
     tuple: {'index', 'count', '__getitem__', '__contains__'},
+    range: {'start', 'stop', 'step', 'index', 'count'},
+    type(_re.match('', '')): {'group', 'groups', 'start', 'end', 'span', 'groupdict', 'string', 'lastindex'},
     int: {'to_bytes', 'bit_length'},
     __import__('inspect').Parameter: {'name', 'kind', 'default', 'annotation', 'empty', 'POSITIONAL_ONLY', 'POSITIONAL_OR_KEYWORD', 'VAR_POSITIONAL', 'KEYWORD_ONLY', 'VAR_KEYWORD'},
     __import__('decimal').Decimal: {'quantize', 'normalize', 'to_integral_value', 'is_finite', 'as_tuple', 'scaleb', 'copy_abs', 'copy_sign', 'copy_negate', 'is_nan', 'is_infinite', 'is_zero', 'is_signed', 'adjusted', 'compare', 'to_integral', 'to_integral_exact', 'as_integer_ratio', 'remainder_near', 'max', 'min', 'sqrt', 'fma', 'shift', 'rotate', 'same_quantum', 'is_normal', 'is_subnormal', 'number_class', 'conjugate'},
@@ -795,7 +803,8 @@ def bind_stdlib_import(st, env):
                 import codecs as _codecs
                 env[a.asname or 'codecs'] = Namespace('codecs', {'lookup': _codecs.lookup})
             elif a.name == 'os':
-                env[a.asname or 'os'] = Namespace('os', {'path': Namespace('os.path', dict(_PURE_MODULES['os.path'])), 'linesep': '\n', 'sep': '/'})
+                env[a.asname or 'os'] = Namespace('os', {'path': Namespace('os.path', dict(_PURE_MODULES['os.path'])), 'linesep': '\n', 'sep': '/',
+                                                         'PathLike': _os.PathLike, 'fspath': _os.fspath, 'fsdecode': _os.fsdecode, 'fsencode': _os.fsencode})
             elif a.name in _PURE_MODULES and (a.asname or a.name) not in env:
                 env[a.asname or a.name] = Namespace(a.name, _pure_module(a.name))
     elif isinstance(st, ast.ImportFrom) and st.module in ('contextlib', 'typing', 'dataclasses', 'enum'):
